@@ -71,11 +71,16 @@ def build_script(sd, idx, override_seed=None, policy=None, sibling=None):
     if r.random() < 0.5:
         # some entries well above 100 molecules (normal-approximation branch of the redistribution)
         desc["state"] = [x if r.random() < 0.5 else float(r.randint(100, 400)) for x in gen.state_of(desc)]
-    rd = gen.Rendering(r, molecule_state=True)
-    system = gen.render_system(desc, rd)
     state = gen.state_of(desc)
     _, mag = ref.rate_law(desc, state, None)
     maxrate = max([m / (abs(s_) + 1.0) for m, s_ in zip(mag, state)] + [1e-3])
+    tiny = kind_ == "euler" and r.random() < 0.15
+    if tiny:
+        # amounts in the subnormal range (about 1e-313): the deterministic engine's arithmetic must be the same whatever ran
+        # before in the process (floating-point control state - rounding mode, flush-to-zero - is process-wide state too)
+        desc["state"] = [x * 2.0 ** -1040 for x in state]
+    rd = gen.Rendering(r, molecule_state=True)
+    system = gen.render_system(desc, rd)
     nsteps = r.choice([200, 1000, 3000]) if kind_ != "gillespie" else r.choice([2000, 10000, 30000])
     if kind_ == "gillespie":
         horizon = nsteps / max(sum(mag), 1e-6)
